@@ -6,6 +6,16 @@ use varpro::prelude::*;
 
 /// the tagged closure family: out[i] = args[i mod n] + 100*tag + 10000*x[i]  (exact on small integers);
 /// `len` overrides the output length (misbehaving user function)
+/// `len_if = (threshold, l)`: the output has length `l` whenever the first argument is >= threshold (a user function whose output
+/// length depends on the parameter values)
+fn encode_if<T: HScalar>(x: &DVector<T>, args: &[T], tag: u32, len: Option<usize>, len_if: Option<(f64, usize)>) -> DVector<T> {
+    let len = match (len_if, args.first()) {
+        (Some((thr, l)), Some(a)) if HScalar::as_f64(*a) >= thr => Some(l),
+        _ => len,
+    };
+    encode(x, args, tag, len)
+}
+
 fn encode<T: HScalar>(x: &DVector<T>, args: &[T], tag: u32, len: Option<usize>) -> DVector<T> {
     let n = len.unwrap_or(x.len());
     let mut v = DVector::<T>::zeros(n);
@@ -18,26 +28,27 @@ fn encode<T: HScalar>(x: &DVector<T>, args: &[T], tag: u32, len: Option<usize>) 
 }
 
 macro_rules! cl {
-    ($T:ty, $tag:ident, $len:ident; $($a:ident),+) => {
-        move |x: &DVector<$T>, $($a: $T),+| encode::<$T>(x, &[$($a),+], $tag, $len)
+    ($T:ty, $tag:ident, $len:ident, $lenif:ident; $($a:ident),+) => {
+        move |x: &DVector<$T>, $($a: $T),+| encode_if::<$T>(x, &[$($a),+], $tag, $len, $lenif)
     };
 }
 
 macro_rules! with_closure {
-    ($arity:expr, $tag:expr, $len:expr, $T:ty, |$f:ident| $body:expr) => {{
+    ($arity:expr, $tag:expr, $len:expr, $lenif:expr, $T:ty, |$f:ident| $body:expr) => {{
         let tag: u32 = $tag;
         let len: Option<usize> = $len;
+        let lenif: Option<(f64, usize)> = $lenif;
         match $arity {
-            1 => { let $f = cl!($T, tag, len; a0); $body }
-            2 => { let $f = cl!($T, tag, len; a0, a1); $body }
-            3 => { let $f = cl!($T, tag, len; a0, a1, a2); $body }
-            4 => { let $f = cl!($T, tag, len; a0, a1, a2, a3); $body }
-            5 => { let $f = cl!($T, tag, len; a0, a1, a2, a3, a4); $body }
-            6 => { let $f = cl!($T, tag, len; a0, a1, a2, a3, a4, a5); $body }
-            7 => { let $f = cl!($T, tag, len; a0, a1, a2, a3, a4, a5, a6); $body }
-            8 => { let $f = cl!($T, tag, len; a0, a1, a2, a3, a4, a5, a6, a7); $body }
-            9 => { let $f = cl!($T, tag, len; a0, a1, a2, a3, a4, a5, a6, a7, a8); $body }
-            10 => { let $f = cl!($T, tag, len; a0, a1, a2, a3, a4, a5, a6, a7, a8, a9); $body }
+            1 => { let $f = cl!($T, tag, len, lenif; a0); $body }
+            2 => { let $f = cl!($T, tag, len, lenif; a0, a1); $body }
+            3 => { let $f = cl!($T, tag, len, lenif; a0, a1, a2); $body }
+            4 => { let $f = cl!($T, tag, len, lenif; a0, a1, a2, a3); $body }
+            5 => { let $f = cl!($T, tag, len, lenif; a0, a1, a2, a3, a4); $body }
+            6 => { let $f = cl!($T, tag, len, lenif; a0, a1, a2, a3, a4, a5); $body }
+            7 => { let $f = cl!($T, tag, len, lenif; a0, a1, a2, a3, a4, a5, a6); $body }
+            8 => { let $f = cl!($T, tag, len, lenif; a0, a1, a2, a3, a4, a5, a6, a7); $body }
+            9 => { let $f = cl!($T, tag, len, lenif; a0, a1, a2, a3, a4, a5, a6, a7, a8); $body }
+            10 => { let $f = cl!($T, tag, len, lenif; a0, a1, a2, a3, a4, a5, a6, a7, a8, a9); $body }
             _ => panic!("arity out of range"),
         }
     }};
@@ -64,14 +75,16 @@ fn run_t<T: HScalar>(case: &Value) -> Value {
                 let arity = op[2].as_u64().unwrap() as usize;
                 let tag = op[3].as_u64().unwrap() as u32;
                 let len = op.get(4).and_then(|l| l.as_u64()).map(|l| l as usize);
-                with_closure!(arity, tag, len, T, |f| cur.unwrap().function(names, f))
+                let lenif = op.get(5).and_then(|l| l.as_array()).map(|l| (l[0].as_f64().unwrap(), l[1].as_u64().unwrap() as usize));
+                with_closure!(arity, tag, len, lenif, T, |f| cur.unwrap().function(names, f))
             }
             "partial_deriv" => {
                 let pname = op[1].as_str().unwrap().to_string();
                 let arity = op[2].as_u64().unwrap() as usize;
                 let tag = op[3].as_u64().unwrap() as u32;
                 let len = op.get(4).and_then(|l| l.as_u64()).map(|l| l as usize);
-                with_closure!(arity, tag, len, T, |f| cur.unwrap().partial_deriv(pname, f))
+                let lenif = op.get(5).and_then(|l| l.as_array()).map(|l| (l[0].as_f64().unwrap(), l[1].as_u64().unwrap() as usize));
+                with_closure!(arity, tag, len, lenif, T, |f| cur.unwrap().partial_deriv(pname, f))
             }
             "invariant" => {
                 let tag = op[1].as_u64().unwrap() as u32;
